@@ -13,7 +13,7 @@
 //       application ops:
 //          recv:<sid>:<buflen>:<timeoutMs>   mode:<sid>:<sync|async|disabled>   csync:<timeoutMs>   connect (async)
 //          observe:<sid>:<tag>  unobserve:<tag>  setdata:<sid>:<tag>  close:<sid>  send:<sid>  listen
-//          waitflag:<f>  setflag:<f>  sleep:<ms>
+//          waitflag:<f>  setflag:<f>  sleep:<ms>  waitlast:<thread> (until that thread is in flight inside a gate-counted call)
 //          stop  destroy (main only; waits until every other application thread is parked in a blocking call or done)
 //          join (main only: join the other application threads)
 //   The engine processes Close commands (from Transport::close / connectSync's timeout path) between its scripted ops and
@@ -183,11 +183,22 @@ struct World
   long long vms() { return vf::virtualAdvanceNs() / 1000000LL; }
   // all flags are created before any thread starts (prepareFlags): afterwards the map is only read
   std::atomic<bool> &flag(const std::string &f) { return flags.find(f)->second; }
+  // "__csync:<thread>": the thread is inside connectSync (set by the csync op around the call)
+  bool inConnSync(const std::string &t)
+  {
+    auto it = flags.find("__csync:" + t);
+    return it != flags.end() && it->second.load();
+  }
   void prepareFlags()
   {
     for (auto &tp : prog)
       for (auto &o : tp.ops)
         if ((o.f[0] == "waitflag" || o.f[0] == "setflag") && o.f.size() > 1) flags[o.f[1]];
+    // "__last:<thread>": the thread is INSIDE a Sync->Async flush (its setReadMode call is registered with the teardown gate
+    // and is handing bytes to the data callback on this thread): the owner may destroy the transport while that call is
+    // still in flight.  (A call that has merely begun is not safe to overlap: until it has registered itself under the lock
+    // nothing can keep the object alive for it - that would be the caller's bug, not the library's.)
+    for (auto &tp : prog) flags["__last:" + tp.name], flags["__csync:" + tp.name];
   }
   std::atomic_flag obsLock = ATOMIC_FLAG_INIT;
   void setObs(const std::string &tag, ObserverId id)
@@ -226,6 +237,12 @@ ConnectResult ScriptEngine::connect(const std::string &, std::uint16_t, TlsMode)
 bool ScriptEngine::close(SessionId s)
 {
   w->tr.add(vf::Ev("EngClose").i("s", (long long)s).str("by", vf::selfName()));
+  {
+    // an application thread that closes an attempt from inside connectSync's timeout path is registered with the teardown
+    // gate (activeConnects) and begins no further call: the owner may destroy the transport while it is still in flight
+    auto fl = w->flags.find(std::string("__last:") + vf::selfName());
+    if (fl != w->flags.end() && w->inConnSync(vf::selfName())) fl->second.store(true);
+  }
   if (stopReq.load()) return false;
   lock();
   closeCmds.push_back(s);
@@ -411,6 +428,25 @@ StartResult ScriptEngine::start()
 // ---- application side ------------------------------------------------------------------------------------------
 static void appOps(World *w, const ThreadProg &tp, std::vector<std::thread> *others);
 
+// every payload byte carries its position in the session's stream: the maximal runs of consecutive positions in a buffer,
+// flattened as from1,to1,from2,to2,... (a buffer that spans a dropped Disabled phase has more than one run)
+static std::vector<long> runsOf(const std::uint8_t *p, std::size_t n)
+{
+  std::vector<long> r;
+  for (std::size_t i = 0; i < n; ++i)
+  {
+    long b = p[i];
+    if (!r.empty() && r.back() == b)
+      r.back() = b + 1;
+    else
+    {
+      r.push_back(b);
+      r.push_back(b + 1);
+    }
+  }
+  return r;
+}
+
 static void installCallbacks(World *w, Transport *t)
 {
   t->onAccept([w](SessionId s, const TransportAddress &) { w->tr.add(vf::Ev("GlobalAccept").i("s", (long long)s).b("as", w->stopReturned.load())); });
@@ -436,8 +472,11 @@ static void installCallbacks(World *w, Transport *t)
   t->onData(
     [w](SessionId s, iora::core::BufferView d, std::chrono::steady_clock::time_point)
     {
-      long from = d.size() ? d.data()[0] : 0;
-      w->tr.add(vf::Ev("Data").i("s", (long long)s).i("from", from).i("to", from + (long)d.size()).str("th", vf::selfName()).b("as", w->stopReturned.load()));
+      auto runs = runsOf(d.data(), d.size());
+      long from = runs.empty() ? 0 : runs.front(), to = runs.empty() ? 0 : runs.back();
+      w->tr.add(vf::Ev("Data").i("s", (long long)s).i("from", from).i("to", to).ints("runs", runs.begin(), runs.end()).str("th", vf::selfName()).b("as", w->stopReturned.load()));
+      auto fl = w->flags.find(std::string("__last:") + vf::selfName());
+      if (fl != w->flags.end()) fl->second.store(true); // a flush on an application thread is under way
     });
 }
 
@@ -451,6 +490,13 @@ static void appOps(World *w, const ThreadProg &tp, std::vector<std::thread> *oth
     if (op == "waitflag")
     {
       while (!w->flag(f[1]).load()) sched_yield();
+      continue;
+    }
+    if (op == "waitlast")
+    {
+      // until thread f[1] is in flight inside a call that the teardown gate counts (a flush handing bytes over, or the
+      // timeout path of connectSync closing its attempt) - or has finished without getting there
+      while (!w->flag("__last:" + f[1]).load() && vf::threadPhase(f[1]) != 2) sched_yield();
       continue;
     }
     vf::point("call");
@@ -468,8 +514,9 @@ static void appOps(World *w, const ThreadProg &tp, std::vector<std::thread> *oth
       auto r = t->receiveSync(s, buf.data(), len, std::chrono::milliseconds(to));
       if (r.isOk())
       {
-        long from = len ? buf[0] : 0;
-        w->tr.add(vf::Ev("RecvRet").str("t", tp.name).i("s", (long long)s).str("res", "ok").i("from", from).i("to", from + (long)len).i("vt", w->vms()).i("uj", vf::unfairJumps()));
+        auto runs = runsOf(buf.data(), len);
+        long from = runs.empty() ? 0 : runs.front(), to = runs.empty() ? 0 : runs.back();
+        w->tr.add(vf::Ev("RecvRet").str("t", tp.name).i("s", (long long)s).str("res", "ok").i("from", from).i("to", to).ints("runs", runs.begin(), runs.end()).i("n", (long long)len).i("vt", w->vms()).i("uj", vf::unfairJumps()));
       }
       else
         w->tr.add(vf::Ev("RecvRet").str("t", tp.name).i("s", (long long)s).str("res", errName(r.error().code)).i("from", 0).i("to", 0).i("vt", w->vms()).i("uj", vf::unfairJumps()));
@@ -486,7 +533,11 @@ static void appOps(World *w, const ThreadProg &tp, std::vector<std::thread> *oth
     {
       int to = atoi(f[1].c_str());
       w->tr.add(vf::Ev("ConnCall").str("t", tp.name).i("to", to).i("vt", w->vms()).i("uj", vf::unfairJumps()));
+      auto cs = w->flags.find("__csync:" + tp.name);
+      if (cs != w->flags.end()) cs->second.store(true);
       auto r = t->connectSync("127.0.0.1", 1, TlsMode::None, std::chrono::milliseconds(to));
+      // (the flag is not cleared: after the call the thread either is done or - in programs without destruction - the
+      // flag is not consulted)
       w->tr.add(vf::Ev("ConnRet").str("t", tp.name).b("ok", r.isOk()).i("s", r.isOk() ? (long long)r.value() : 0)
                   .str("err", r.isOk() ? "-" : errName(r.error().code)).i("vt", w->vms()).i("uj", vf::unfairJumps()));
     }
@@ -561,12 +612,14 @@ static void appOps(World *w, const ThreadProg &tp, std::vector<std::thread> *oth
     }
     else if (op == "destroy" && others)
     {
-      // the other threads use a raw pointer: wait until each of them is parked inside a blocking call or has finished
+      // the other threads use a raw pointer: wait until each of them is parked inside a blocking call, is inside a flush that
+      // the teardown gate counts (see prepareFlags) or is done
       for (;;)
       {
         bool allQuiet = true;
         for (auto &p : w->prog)
-          if (p.name != "main" && p.name != "io" && p.name != "gcb" && vf::threadPhase(p.name) == 0) allQuiet = false;
+          if (p.name != "main" && p.name != "io" && p.name != "gcb" && vf::threadPhase(p.name) == 0 && !w->flag("__last:" + p.name).load())
+            allQuiet = false;
         if (allQuiet) break;
         sched_yield();
       }
